@@ -117,6 +117,7 @@ BodyEv == /\ Live("body")
 
 DecResult(e) == IF e.r = "msg" THEN [r |-> "msg", ser |-> IF s.stim.codec = "prost" THEN ProtoSerTest(e.m) ELSE e.m]
                 ELSE IF e.r = "err" THEN [r |-> "err", code |-> e.st.code]
+                ELSE IF e.r = "pending" /\ Has(e, "woken") THEN [r |-> "pending", woken |-> e.woken]
                 ELSE [r |-> e.r]
 \* C06: an oversize message is refused before memory is reserved for it
 AllocClause(e) == <<"RefusedBeforeReserve",
